@@ -148,7 +148,11 @@ def query2(ctx) -> List[Ob]:
         if inter:
             upd = [c for c in method_calls(lp, "update") if c.args and A.unparse(c.args[0]) == inter]
             ent = [n for n in lp.body if isinstance(n, ast.If) and A.unparse(n.test) == inter and any(c.args and A.unparse(c.args[0]) == v for c in method_calls(ast.Module(n.body, []), "add"))]
-            uncond = upd and not [a for a in A.ancestors(upd[0]) if isinstance(a, ast.If) and any(x is lp for x in A.ancestors(a))]
+            # unconditional, or only under `if <the intersection>:` (updating with the empty set is a no-op)
+            def _harmless(a: ast.If, node: ast.AST) -> bool:
+                return A.unparse(a.test) in (inter, f"len({inter}) > 0", f"len({inter}) != 0", f"len({inter}) >= 1") and any(node is x or any(y is x for y in A.ancestors(node)) for x in a.body)
+
+            uncond = upd and not [a for a in A.ancestors(upd[0]) if isinstance(a, ast.If) and any(x is lp for x in A.ancestors(a)) and not _harmless(a, upd[0])]
             good = bool(uncond and ent)
     if good:
         out.append(ok("QUERY-2", m.qualname, key, where, "headers += subset & targets(outside block); the outside block is an entry when that is non-empty"))
@@ -385,7 +389,33 @@ def query4(ctx) -> List[Ob]:
             dval = _single_def_value(ctx, fn, dsrc) if isinstance(dsrc, ast.Name) else dsrc
             if isinstance(dval, ast.Call) and (A.dotted(dval.func) or "").endswith("_doms"):
                 mem = (l2, dval)
+    comp_mem = None
     if mem is None:
+        # the same as a comprehension: {k for k, kd in doms.items() if <arm> in kd and <end> not in kd}
+        for cp in [n for n in ast.walk(lp) if isinstance(n, (ast.SetComp, ast.ListComp, ast.GeneratorExp)) and len(n.generators) == 1]:
+            g_ = cp.generators[0]
+            if isinstance(g_.iter, ast.Call) and isinstance(g_.iter.func, ast.Attribute) and g_.iter.func.attr == "items" and isinstance(g_.target, ast.Tuple) and len(g_.target.elts) == 2:
+                dsrc = g_.iter.func.value
+                dval = _single_def_value(ctx, fn, dsrc) if isinstance(dsrc, ast.Name) else dsrc
+                if isinstance(dval, ast.Call) and (A.dotted(dval.func) or "").endswith("_doms"):
+                    comp_mem = (cp, g_, dval)
+    if comp_mem is not None:
+        cp, g_, dval = comp_mem
+        k, kd = [A.unparse(e) for e in g_.target.elts]
+        callee = A.dotted(dval.func) or ""
+        conj = set()
+        for c_ in g_.ifs:
+            if isinstance(c_, ast.BoolOp) and isinstance(c_.op, ast.And):
+                conj |= {A.unparse(v) for v in c_.values}
+            else:
+                conj.add(A.unparse(c_))
+        if callee.endswith("_post_doms"):
+            out.append(bad("QUERY-4", fn.qualname, key, ctx.where(fn, cp), "membership is decided on post-dominators, not dominators"))
+        elif conj == {f"{arm} in {kd}", f"{end} not in {kd}"} and A.unparse(cp.elt) == k:
+            out.append(ok("QUERY-4", fn.qualname, key, ctx.where(fn, cp), f"{k} is a member iff {arm} in dom({k}) and {end} not in dom({k})"))
+        else:
+            out.append(bad("QUERY-4", fn.qualname, key, ctx.where(fn, cp), f"membership test is {sorted(conj) or 'not a conjunction'}: expected '{arm} in {kd}' and '{end} not in {kd}'"))
+    elif mem is None:
         out.append(unresolved("QUERY-4", fn.qualname, key, where, "membership loop over the dominator sets not found"))
     else:
         l2, dval = mem
@@ -617,6 +647,14 @@ def query6(ctx) -> List[Ob]:
     v = A.unparse(tops[0].targets[0])
     succ_loops = [lp for lp in wl.body if isinstance(lp, ast.For) and A.unparse(lp.iter) == f"{Gp}[{v}]"]
     done_ifs = [s for s in wl.body if isinstance(s, ast.If) and isinstance(s.test, ast.Name)]
+    # "all successors visited" in either spelling: a flag cleared next to the `break` and tested after the
+    # scan (`if done:`), or the `else:` clause of the scan loop itself
+    for_else = len(succ_loops) == 1 and bool(succ_loops[0].orelse) and not done_ifs
+    if for_else:
+        pseudo = ast.If(test=ast.Name(id="<scan completed>", ctx=ast.Load()), body=succ_loops[0].orelse, orelse=[])
+        ast.copy_location(pseudo, succ_loops[0].orelse[0])
+        ast.copy_location(pseudo.test, succ_loops[0].orelse[0])
+        done_ifs = [pseudo]
     if len(succ_loops) != 1 or len(done_ifs) != 1:
         return shape("expected one successor loop and one 'if done' block per visit")
     el, di = succ_loops[0], done_ifs[0]
@@ -672,7 +710,7 @@ def query6(ctx) -> List[Ob]:
         if pif is not None and A.unparse(pif.test) == f"{w} not in {PRE}" and pif in el.body:
             kinds = [type(s).__name__ for s in pif.body]
             sets_false = any(isinstance(s, ast.Assign) and A.unparse(s.targets[0]) == done and isinstance(s.value, ast.Constant) and s.value.value is False for s in pif.body)
-            if isinstance(pif.body[-1], ast.Break) and sets_false:
+            if isinstance(pif.body[-1], ast.Break) and (sets_false or for_else):
                 okp = True
             elif not isinstance(pif.body[-1], ast.Break):
                 why = "after pushing an unvisited successor the scan of the successors goes on: several children are pushed at once, the stack is no longer a path of the DFS tree and low-links are computed across siblings"
@@ -681,7 +719,7 @@ def query6(ctx) -> List[Ob]:
         else:
             why = f"the push is not guarded by '{w} not in {PRE}'"
     init_done = [s for s in wl.body if isinstance(s, ast.Assign) and A.unparse(s.targets[0]) == done and isinstance(s.value, ast.Constant) and s.value.value is True]
-    if okp and init_done and wl.body.index(init_done[0]) < wl.body.index(el):
+    if okp and (for_else or (init_done and wl.body.index(init_done[0]) < wl.body.index(el))):
         out.append(ok("QUERY-6", fn.qualname, key, ctx.where(fn, el), f"if {w} not in {PRE}: {Q}.append({w}); {done} = False; break"))
     else:
         out.append(bad("QUERY-6", fn.qualname, key, ctx.where(fn, el), why if not okp else f"'{done} = True' is not set before the successor scan"))
@@ -739,7 +777,7 @@ def query6(ctx) -> List[Ob]:
             conds = {A.unparse(x) for x in wt.values} if isinstance(wt, ast.BoolOp) and isinstance(wt.op, ast.And) else set()
             popk = [s for s in ws[0].body if isinstance(s, ast.Assign) and A.unparse(s.value) == f"{SQ}.pop()"]
             addk = popk and any(isinstance(s, ast.Expr) and A.unparse(s.value) == f"{C}.add({A.unparse(popk[0].targets[0])})" for s in ws[0].body)
-            cmp_ok = bool({f"{PRE}[{SQ}[-1]] > {PRE}[{v}]", f"{PRE}[{SQ}[-1]] >= {PRE}[{v}]", f"{PRE}[{v}] < {PRE}[{SQ}[-1]]"} & conds)
+            cmp_ok = bool({f"{PRE}[{SQ}[-1]] > {PRE}[{v}]", f"{PRE}[{SQ}[-1]] >= {PRE}[{v}]", f"{PRE}[{v}] < {PRE}[{SQ}[-1]]", f"{PRE}[{v}] <= {PRE}[{SQ}[-1]]"} & conds)
             order = r.body.index(comp[0]) < r.body.index(ws[0]) < r.body.index(upd[0]) < r.body.index(ys[0])
             if SQ in conds and cmp_ok and addk and order and A.unparse(upd[0].value.args[0]) == C and A.unparse(ys[0].value.value) == C and SQ != Q:
                 okr = True
@@ -758,7 +796,15 @@ def query6(ctx) -> List[Ob]:
     key = "successor relation = forward targets inside the graph; vertices = all blocks"
     if cs is None:
         raise AnalysisError("SCFG.compute_scc not found")
-    wrap = [c for c in ctx.prog.all_classes() if c.parent_fn is cs]
+    # the adapter is the class whose instance is handed to the SCC routine (nested in compute_scc or at
+    # module level - found through the call, not by its place or name)
+    wrap = []
+    for c_ in A.walk_no_nested(cs.node):
+        if isinstance(c_, ast.Call) and (A.dotted(c_.func) or "").split(".")[-1] in ("scc", "sccr") and c_.args and isinstance(c_.args[0], ast.Call):
+            nm_ = (A.dotted(c_.args[0].func) or "").split(".")[-1]
+            wrap = [c for c in ctx.prog.all_classes() if c.name == nm_ and (c.parent_fn is cs or (c.parent_fn is None and c.module is cs.module))]
+    if not wrap:
+        wrap = [c for c in ctx.prog.all_classes() if c.parent_fn is cs]
     if len(wrap) != 1 or "__getitem__" not in wrap[0].methods or "__iter__" not in wrap[0].methods:
         out.append(unresolved("QUERY-6", cs.qualname, key, ctx.where(cs), "graph adapter class with __getitem__ / __iter__ not found in compute_scc"))
     else:
@@ -820,6 +866,16 @@ def query7(ctx) -> List[Ob]:
             e = A.unparse(lp.target)
             good = A.unparse(lp.body[0].targets[0]) == f"{D}[{e}]" and A.unparse(lp.body[0].value) == f"{{{e}}}"
             w1 = ctx.where(fn, lp)
+    if not good:
+        # the same as a comprehension: D = {e: {e} for e in E}
+        for st_ in A.walk_no_nested(fn.node):
+            if isinstance(st_, (ast.Assign, ast.AnnAssign)) and st_.value is not None and isinstance(st_.value, ast.DictComp) and len(st_.value.generators) == 1:
+                tg_ = st_.targets[0] if isinstance(st_, ast.Assign) else st_.target
+                g_ = st_.value.generators[0]
+                if A.unparse(tg_) == D and A.unparse(g_.iter) == E and not g_.ifs:
+                    e = A.unparse(g_.target)
+                    good = A.unparse(st_.value.key) == e and A.unparse(st_.value.value) == f"{{{e}}}"
+                    w1 = ctx.where(fn, st_)
     if good:
         out.append(ok("QUERY-7", fn.qualname, key, w1, f"for e in {E}: {D}[e] = {{e}}"))
     else:
@@ -931,8 +987,12 @@ def query7(ctx) -> List[Ob]:
                 if len(subs) == 1:
                     lpv = next((a for a in A.ancestors(subs[0]) if isinstance(a, ast.For)), None)
                     lpk = next((a for a in A.ancestors(lpv) if isinstance(a, ast.For)), None) if lpv is not None else None
-                    if lpv is not None and lpk is not None and _strip_order(lpk.iter) == f"{I}.items()" and isinstance(lpk.target, ast.Tuple):
-                        vs = A.unparse(lpk.target.elts[1])
+                    # the outer sweep visits every strict-dominator set: `for k, vs in I.items()` or its normal
+                    # form `for vs in I.values()` (the key is not needed)
+                    over_items = lpk is not None and _strip_order(lpk.iter) == f"{I}.items()" and isinstance(lpk.target, ast.Tuple) and len(lpk.target.elts) == 2
+                    over_values = lpk is not None and _strip_order(lpk.iter) == f"{I}.values()" and isinstance(lpk.target, ast.Name)
+                    if lpv is not None and (over_items or over_values):
+                        vs = A.unparse(lpk.target.elts[1]) if over_items else lpk.target.id
                         x = A.unparse(lpv.target)
                         if _strip_order(lpv.iter) == vs and A.unparse(subs[0].target) == vs and A.unparse(subs[0].value) == f"{I}[{x}]" and isinstance(lpv.iter, ast.Call):
                             if unp and not [a for a in A.ancestors(subs[0]) if isinstance(a, ast.If)]:
